@@ -236,6 +236,8 @@ class CenteredDifferences(BaseGradientApproximator):
             lower_bounds = normalize_vect(lower_bounds)
             upper_bounds = normalize_vect(upper_bounds)
 
+        lower_bounds = lower_bounds[input_indices]
+        upper_bounds = upper_bounds[input_indices]
         steps_plus = where(
             input_perturbations[input_indices, range(n_indices)] >= upper_bounds,
             0,
